@@ -52,6 +52,15 @@ CLAIMED.update({
             "Conservation / accounting oracle over the coordinator's print history with decoration options varied; known finding F-C19a attributed by signature."),
 })
 
+CLAIMED.update({
+    "C14": ("exploration", "3 C14", TECH + "simulated program-start clock (plan now=) and --tz-offset; independent resolver of the documented filter grammar vs the --summary filter lines, exit status, and the messages selected from a probe log placed 1 ms around the resolved bounds",
+            "The relative forms are only decidable with a controlled clock; absolute forms ride along. Sampling of the grammar and near-misses."),
+    "C11": ("exploration", "3 C11", TECH + "simulated world timeline sets message dates, file mtimes and gz/tar header mtimes; reference year-inference model (true dates) vs -u -d output, windows and cross-file merge",
+            "Clock/mtime-controlled model oracle over simulated runs; containers, zones, block sizes sampled."),
+    "C15": ("exploration", "3 C15", TECH + "metamorphic over argument forms: directory as given vs the model's explicit sorted expansion vs stdin list vs split, on trees created in seed-chosen order, with tie-everywhere contents",
+            "Metamorphic comparison between simulated runs; jwalk's rayon pool is uncontrolled (stated)."),
+})
+
 NOT_APPLICABLE = {
     "C04": "pure function from (line bytes, pattern table, fallback zone) to an instant: no schedule, clock, fault or interleaving to simulate (DESIGN section 5)",
     "C16": "pure terminating recursion on a file-name string: no I/O, time or concurrency to simulate (DESIGN section 5)",
